@@ -34,7 +34,7 @@ theorem mkPool_inv (cs : List Cls) (hwf : ∀ c ∈ cs, ClsWF c) : Inv (mkPool c
     · intro h
       cases htd : c.trait n with
       | defer d => exact ⟨d, rfl⟩
-      | plain a b => simp [htd] at h
+      | plain a b c => simp [htd] at h
       | python => simp [htd] at h
     · intro d _ hd; exact absurd rfl hd
   · intro o n h
